@@ -150,6 +150,10 @@ class TcpSimResponder(_SimResponderBase):
             out = rw.tcp_write_multi_response(tx, a, r[1], r[2])
         else:
             out = rw.tcp_exception_response(tx, a, r[1], r[2])
+        if self.trailing and r[0] == "read":
+            # bytes after the announced payload (e.g. an RTU-over-TCP gateway forwarding the CRC); the library accepts such
+            # answers as valid, the announced byte count says what the payload is
+            out = out + self.trailing
         if self.mbap_len is not None:
             # GoodWe firmware quirk: the MBAP length field does not describe the frame (e.g. the request's value 6 is echoed);
             # the library documents that it ignores the field
@@ -157,6 +161,7 @@ class TcpSimResponder(_SimResponderBase):
         return out
 
     mbap_len = None
+    trailing = b""
 
     def exception(self, data, code):
         return rw.tcp_exception_response(rw.be16(data, 0), data[6], data[7], code)
@@ -371,24 +376,95 @@ def make_dt_sim(serial=b"9010KDTU000W0000", default=0, refuse_blocks=(), **info)
 # ---------------------------------------------------------------------------------------------
 # direct path: Inverter objects whose _read_from_socket talks to a simulator synchronously
 # ---------------------------------------------------------------------------------------------
-def attach_direct(inv, responder):
-    """Replace inv._read_from_socket by a synchronous round trip through `responder` that still runs
-    command.request_bytes(), command.validator() and ProtocolResponse (like the repo's own test mocks do).
-    Keeps the failure-counter semantics of Inverter._read_from_socket out of scope (C09 uses the real one)."""
-    from goodwe.exceptions import RequestFailedException
-    from goodwe.protocol import ProtocolResponse
+class _Done:
+    """What ProtocolCommand.execute() awaits from protocol.send_request(): an already completed 'future'."""
+    __slots__ = ("value",)
 
-    async def _read_from_socket(command):
+    def __init__(self, value):
+        self.value = value
+
+    def result(self):
+        return self.value
+
+
+def attach_direct(inv, responder):
+    """Synchronous round trip through `responder`: the TRANSPORT is replaced (protocol.send_request / close of this one
+    object), everything above it is the library's own code - Inverter._read_from_socket (failure counter, logging),
+    ProtocolCommand.execute, command.request_bytes(), command.validator() and ProtocolResponse.  No answer / an answer the
+    validator refuses ends like an exhausted request (MaxRetriesException, which the inverter level turns into
+    RequestFailedException); an exception frame raises RequestRejectedException out of the validator, as on the wire."""
+    from goodwe.exceptions import MaxRetriesException
+    proto = inv._protocol
+
+    async def send_request(command):
         req = command.request_bytes()
         resp = responder.respond(req)
         if resp is None:
-            raise RequestFailedException("simulator did not answer %s" % req.hex(), 1)
+            raise MaxRetriesException()
         if command.validator(resp):       # may raise RequestRejectedException
-            return ProtocolResponse(resp, command)
-        raise RequestFailedException("simulator answer %s refused by the validator" % resp.hex(), 1)
+            return _Done(resp)
+        raise MaxRetriesException()
 
-    inv._read_from_socket = _read_from_socket
+    async def close():
+        return None
+
+    proto.send_request = send_request
+    proto.close = close
+    inv._verif_responder = responder
+    inv.__dict__.pop("_read_from_socket", None)
     return inv
+
+
+def run_overlapping(inv, main_fn, others, responder=None):
+    """Several public calls overlap on ONE inverter object: `main_fn()` starts at once, each `(fn, offset)` of `others`
+    after `offset` scheduling steps.  Requests are served one at a time in arrival order (what the protocol lock does), each
+    taking one scheduling step.  Exceptions of the other calls are swallowed (they are only the disturbance); returns
+    (result, exception) of the main call.  Afterwards the object is back on the plain synchronous path."""
+    import asyncio
+    from goodwe.exceptions import MaxRetriesException
+    responder = responder or inv._verif_responder
+    proto = inv._protocol
+    out = {}
+
+    async def scenario():
+        lock = asyncio.Lock()
+
+        async def send_request(command):
+            async with lock:
+                req = command.request_bytes()
+                await asyncio.sleep(0)
+                resp = responder.respond(req)
+                if resp is None:
+                    raise MaxRetriesException()
+                if command.validator(resp):
+                    return _Done(resp)
+                raise MaxRetriesException()
+
+        proto.send_request = send_request
+
+        async def main():
+            try:
+                out["result"] = await main_fn()
+            except Exception as ex:      # judged by the caller
+                out["exc"] = ex
+
+        async def other(fn, offset):
+            for _ in range(offset):
+                await asyncio.sleep(0)
+            try:
+                await fn()
+            except Exception:
+                pass
+
+        await asyncio.gather(main(), *[other(fn, off) for fn, off in others])
+
+    loop = asyncio.new_event_loop()
+    try:
+        loop.run_until_complete(scenario())
+    finally:
+        loop.close()
+        attach_direct(inv, responder)
+    return out.get("result"), out.get("exc")
 
 
 def responder_for(inv, sim):
